@@ -363,4 +363,234 @@ theorem writeHeader_entries (c : WChart) (hl : List Bytes) (h : writeHeader c = 
         have hkv : kvLine = fun kv => '#' :: kv.1 ++ ' ' :: kv.2 := rfl
         simp [headerEntries, hkv, bpmEntries, hemp, hb, Function.comp_def]
 
+/-! ### `_read_file_header` on the written header -/
+
+/-- what the chart's header fields must grant (C05's domain): other header keys are plain keys that are neither
+`BPM` nor of the `BPMxx` form; sample ids without white space; a non-blank `#LNOBJ` id; fewer than 1295 tempo rows
+(the writer's own assert allows 1294), non-negative tempos -/
+structure HeaderOK (c : WChart) : Prop where
+  misc : ∀ kv ∈ c.misc, KeyOK kv.1 ∧ kv.1 ≠ "BPM".toList ∧ isExbpmKey kv.1 = false
+  samples : ∀ kv ∈ c.samples, ∀ ch ∈ kv.1, isWs ch = false
+  lnEnd : c.lnEnd ≠ [] ∧ ∀ ch ∈ c.lnEnd, isWs ch = false
+  nbpm : c.bpms.length < 1295
+  bpmpos : ∀ b ∈ c.bpms, 0 ≤ b.bpm
+
+theorem showFixed_clean (k : Nat) (q : Rat) : showFixed k q ≠ [] ∧ ∀ c ∈ showFixed k q, isWs c = false := by
+  have hd : ∀ n, showNat n ≠ [] ∧ ∀ c ∈ showNat n, isWs c = false := by
+    intro n
+    obtain ⟨h1, h2, _⟩ := showNat_spec n
+    exact ⟨h1, fun c hc => (isDigit_facts c (h2 c hc)).1⟩
+  unfold showFixed
+  simp only []
+  constructor
+  · intro h
+    simp only [List.append_eq_nil_iff] at h
+    exact (hd _).1 h.1.2
+  · intro c hc
+    simp only [List.mem_append] at hc
+    rcases hc with (hc | hc) | hc
+    · split at hc
+      · simp only [List.mem_singleton] at hc; subst hc; decide
+      · cases hc
+    · exact (hd _).2 c hc
+    · split at hc
+      · cases hc
+      · rcases List.mem_cons.mp hc with rfl | hc
+        · decide
+        · simp only [padLeft, List.mem_append, List.mem_replicate] at hc
+          rcases hc with ⟨_, rfl⟩ | hc
+          · decide
+          · exact (hd _).2 c hc
+
+theorem bpmEntries_facts (rows : List BcOff) (hn : rows.length < 1295) :
+    (∀ kv ∈ bpmEntries rows, KeyOK kv.1 ∧ isExbpmKey kv.1 = true ∧ kv.1 ≠ "BPM".toList ∧ kv.1 ≠ "LNOBJ".toList ∧
+      kv.2 ≠ [] ∧ ∀ c ∈ kv.2, isWs c = false) ∧
+    ((bpmEntries rows).map (·.1)).Nodup := by
+  constructor
+  · intro kv hkv
+    simp only [bpmEntries, List.mem_map] at hkv
+    obtain ⟨p, hp, rfl⟩ := hkv
+    obtain ⟨h1, h2, _⟩ := zipIdxFrom_mem rows 1 p hp
+    obtain ⟨_, hlen, hall, _⟩ := base36_roundtrip p.1 (by omega)
+    have hws : ∀ c ∈ base36 p.1, isWs c = false := by
+      intro c hc
+      exact (isB36_ne (List.all_eq_true.mp hall c hc)).2.2
+    refine ⟨⟨'B', "PM".toList ++ base36 p.1, rfl, by decide, ?_⟩, ?_, ?_, ?_, (showFixed_clean _ _).1, (showFixed_clean _ _).2⟩
+    · intro c hc
+      rcases List.mem_append.mp (show c ∈ "BPM".toList ++ base36 p.1 from hc) with h | h
+      · have : ∀ c ∈ "BPM".toList, isWs c = false := by decide
+        exact this c h
+      · exact hws c h
+    · simp [isExbpmKey, base36, upper]
+    · intro e
+      have := congrArg List.length e
+      simp [hlen] at this
+    · intro e
+      have := congrArg (fun l => l.take 1) e
+      simp at this
+  · have : (bpmEntries rows).map (·.1) = ((zipIdxFrom 1 rows).map (·.1)).map (fun i => "BPM".toList ++ base36 i) := by
+      simp [bpmEntries, List.map_map, Function.comp_def]
+    rw [this, zipIdxFrom_fst, List.map_map]
+    have h2 := base36_ids_nodup rows.length (by omega)
+    have e : (List.range rows.length).map ((fun i => "BPM".toList ++ base36 i) ∘ fun i => 1 + i) =
+        ((List.range rows.length).map (fun i => base36 (i + 1))).map (fun b => "BPM".toList ++ b) := by
+      rw [List.map_map]
+      apply List.map_congr_left; intro i _; simp [Function.comp, Nat.add_comm]
+    rw [e]
+    exact h2.map (fun a b hab => List.append_cancel_left hab)
+
+theorem keyOK_consts : KeyOK "TITLE".toList ∧ KeyOK "ARTIST".toList ∧ KeyOK "BPM".toList ∧ KeyOK "PLAYLEVEL".toList ∧
+    KeyOK "LNOBJ".toList :=
+  ⟨⟨'T', "ITLE".toList, rfl, by decide, by decide⟩, ⟨'A', "RTIST".toList, rfl, by decide, by decide⟩,
+   ⟨'B', "PM".toList, rfl, by decide, by decide⟩, ⟨'P', "LAYLEVEL".toList, rfl, by decide, by decide⟩,
+   ⟨'L', "NOBJ".toList, rfl, by decide, by decide⟩⟩
+
+/-- **The written header, read back.**  For a chart in the header domain (`HeaderOK`) whose header the writer can
+render (`writeHeader c = ok hl`: a first tempo row `b0` with a finite decimal text): the header dict `H` of the
+header lines (as `written_file_objects` exposes it) has `LNOBJ ↦` the chart's `#LNOBJ` id — the rendered
+`#LNOBJ` line comes after the other-keys block, so an `LNOBJ` entry there is overridden —, and `_read_file_header`
+succeeds on it with the header tempo `b0.bpm` (`parseFloat ∘ str`, `parseFloat_showExact`) and the tempo table
+`base36 i ↦ roundDec 3 bpm_i` (`exbpm_table_readback`), whatever `#TITLE` / `#ARTIST` / `#PLAYLEVEL` / other keys and
+`#WAV` lines say. -/
+theorem written_header_read (c : WChart) (hH : HeaderOK c) (hl : List Bytes) (hhdr : writeHeader c = .ok hl)
+    (H : Dict Bytes) (hfold : foldlE docStep ⟨[], []⟩ (hl ++ [[]]) = .ok ⟨H, []⟩) :
+    dictGet? H "LNOBJ".toList = some c.lnEnd ∧
+    ∃ b0 hdr, c.bpms.head? = some b0 ∧ readHeader H = .ok hdr ∧ hdr.bpm0 = b0.bpm ∧
+      hdr.exbpms = (zipIdxFrom 1 c.bpms).map (fun p => (base36 p.1, roundDec 3 p.2.bpm)) := by
+  obtain ⟨b0, rest, bpmText, hb, hs, rfl⟩ := writeHeader_entries c hl hhdr hH.lnEnd.1
+  obtain ⟨kT, kA, kB, kP, kL⟩ := keyOK_consts
+  obtain ⟨hE, hEnd⟩ := bpmEntries_facts c.bpms hH.nbpm
+  have hW : ∀ kv ∈ c.samples.map (fun kv => ("WAV".toList ++ kv.1, kv.2)),
+      KeyOK kv.1 ∧ isExbpmKey kv.1 = false ∧ kv.1 ≠ "BPM".toList ∧ kv.1 ≠ "LNOBJ".toList := by
+    intro kv hkv
+    obtain ⟨q, hq, rfl⟩ := List.mem_map.mp hkv
+    refine ⟨⟨'W', "AV".toList ++ q.1, rfl, by decide, ?_⟩, ?_, ?_, ?_⟩
+    · intro ch hch
+      rcases List.mem_append.mp (show ch ∈ "WAV".toList ++ q.1 from hch) with h | h
+      · have : ∀ c ∈ "WAV".toList, isWs c = false := by decide
+        exact this ch h
+      · exact hH.samples q hq ch h
+    · simp [isExbpmKey, upper]
+    · intro e
+      have := congrArg (fun l => l.take 1) e
+      simp at this
+    · intro e
+      have := congrArg (fun l => l.take 1) e
+      simp at this
+  -- every entry has a plain key
+  have hkeys : ∀ kv ∈ headerEntries c bpmText, KeyOK kv.1 := by
+    intro kv hkv
+    simp only [headerEntries, List.mem_append, List.mem_cons, List.not_mem_nil, or_false] at hkv
+    rcases hkv with (((((rfl | rfl | rfl | rfl)) | h) | rfl) | h) | h
+    · exact kT
+    · exact kA
+    · exact kB
+    · exact kP
+    · exact (hH.misc kv h).1
+    · exact kL
+    · exact (hE kv h).1
+    · exact (hW kv h).1
+  rw [header_of_entries _ hkeys] at hfold
+  injection hfold with hfold
+  injection hfold with hHeq _
+  -- the clean entries are read back as they stand
+  have hbpmText : bpmText ≠ [] ∧ ∀ ch ∈ bpmText, isWs ch = false := by
+    obtain ⟨k', _, rfl⟩ := showExactAux_spec b0.bpm 400 0 bpmText hs
+    exact showFixed_clean _ _
+  have rB : kvRead ("BPM".toList, bpmText) = some ("BPM".toList, bpmText) := kvRead_clean _ hbpmText.1 hbpmText.2
+  have rL : kvRead ("LNOBJ".toList, c.lnEnd) = some ("LNOBJ".toList, c.lnEnd) := kvRead_clean _ hH.lnEnd.1 hH.lnEnd.2
+  have rE : (bpmEntries c.bpms).filterMap kvRead = bpmEntries c.bpms :=
+    filterMap_kvRead_clean _ (fun kv hkv => ⟨(hE kv hkv).2.2.2.2.1, (hE kv hkv).2.2.2.2.2⟩)
+  -- the shape of the dict's fill list
+  obtain ⟨W', hW'⟩ : ∃ W', W' = (c.samples.map (fun kv => ("WAV".toList ++ kv.1, kv.2))).filterMap kvRead := ⟨_, rfl⟩
+  obtain ⟨M', hM'⟩ : ∃ M', M' = (("PLAYLEVEL".toList, c.version) :: c.misc).filterMap kvRead := ⟨_, rfl⟩
+  obtain ⟨A', hA'⟩ : ∃ A', A' = [("TITLE".toList, c.title), ("ARTIST".toList, c.artist)].filterMap kvRead := ⟨_, rfl⟩
+  have hkvs : (headerEntries c bpmText).filterMap kvRead =
+      A' ++ ("BPM".toList, bpmText) :: (M' ++ ("LNOBJ".toList, c.lnEnd) :: (bpmEntries c.bpms ++ W')) := by
+    have : headerEntries c bpmText = [("TITLE".toList, c.title), ("ARTIST".toList, c.artist)] ++
+        ("BPM".toList, bpmText) :: ((("PLAYLEVEL".toList, c.version) :: c.misc) ++
+          ("LNOBJ".toList, c.lnEnd) :: (bpmEntries c.bpms ++ c.samples.map (fun kv => ("WAV".toList ++ kv.1, kv.2)))) := by
+      simp [headerEntries]
+    have mid : ∀ (pre post : List (Bytes × Bytes)) (x : Bytes × Bytes), kvRead x = some x →
+        (pre ++ x :: post).filterMap kvRead = pre.filterMap kvRead ++ x :: post.filterMap kvRead := by
+      intro pre post x hx
+      rw [List.filterMap_append, List.filterMap_cons, hx]
+    rw [this, mid _ _ _ rB, mid _ _ _ rL, List.filterMap_append, rE, ← hW', ← hM', ← hA']
+  have hW'k : ∀ kv ∈ W', isExbpmKey kv.1 = false ∧ kv.1 ≠ "BPM".toList ∧ kv.1 ≠ "LNOBJ".toList := by
+    intro kv hkv
+    rw [hW'] at hkv
+    obtain ⟨kv0, h0, e⟩ := filterMap_kvRead_keys _ kv hkv
+    rw [e]; exact (hW kv0 h0).2
+  have hM'k : ∀ kv ∈ M', isExbpmKey kv.1 = false ∧ kv.1 ≠ "BPM".toList := by
+    intro kv hkv
+    rw [hM'] at hkv
+    obtain ⟨kv0, h0, e⟩ := filterMap_kvRead_keys _ kv hkv
+    rw [e]
+    rcases List.mem_cons.mp h0 with rfl | h0
+    · exact ⟨by show isExbpmKey "PLAYLEVEL".toList = false; decide, by show "PLAYLEVEL".toList ≠ "BPM".toList; decide⟩
+    · exact ⟨(hH.misc kv0 h0).2.2, (hH.misc kv0 h0).2.1⟩
+  have hA'k : ∀ kv ∈ A', isExbpmKey kv.1 = false := by
+    intro kv hkv
+    rw [hA'] at hkv
+    obtain ⟨kv0, h0, e⟩ := filterMap_kvRead_keys _ kv hkv
+    rw [e]
+    simp only [List.mem_cons, List.not_mem_nil, or_false] at h0
+    rcases h0 with rfl | rfl
+    · show isExbpmKey "TITLE".toList = false; decide
+    · show isExbpmKey "ARTIST".toList = false; decide
+  rw [hkvs] at hHeq
+  -- LNOBJ: the rendered line wins
+  have hLN : dictGet? H "LNOBJ".toList = some c.lnEnd := by
+    rw [← hHeq]
+    have : A' ++ ("BPM".toList, bpmText) :: (M' ++ ("LNOBJ".toList, c.lnEnd) :: (bpmEntries c.bpms ++ W')) =
+        (A' ++ ("BPM".toList, bpmText) :: M') ++ ("LNOBJ".toList, c.lnEnd) :: (bpmEntries c.bpms ++ W') := by simp
+    rw [this]
+    apply dictGet_foldl_last
+    intro kv hkv
+    rcases List.mem_append.mp hkv with h | h
+    · exact (hE kv h).2.2.2.1
+    · exact (hW'k kv h).2.2
+  -- BPM: the rendered line wins
+  have hBPM : dictGet? H "BPM".toList = some bpmText := by
+    rw [← hHeq]
+    apply dictGet_foldl_last
+    intro kv hkv
+    rcases List.mem_append.mp hkv with h | h
+    · exact (hM'k kv h).2
+    · rcases List.mem_cons.mp h with rfl | h
+      · show "LNOBJ".toList ≠ "BPM".toList; decide
+      · rcases List.mem_append.mp h with h | h
+        · exact (hE kv h).2.2.1
+        · exact (hW'k kv h).2.1
+  -- the tempo table
+  have hfilt : H.filter (fun p => isExbpmKey p.1) = bpmEntries c.bpms := by
+    rw [← hHeq, filter_foldl_dictSet]
+    have : (A' ++ ("BPM".toList, bpmText) :: (M' ++ ("LNOBJ".toList, c.lnEnd) :: (bpmEntries c.bpms ++ W'))).filter
+        (fun p => isExbpmKey p.1) = bpmEntries c.bpms := by
+      have f1 : A'.filter (fun p => isExbpmKey p.1) = [] := by
+        rw [List.filter_eq_nil_iff]; intro kv hkv; simp [hA'k kv hkv]
+      have f2 : M'.filter (fun p => isExbpmKey p.1) = [] := by
+        rw [List.filter_eq_nil_iff]; intro kv hkv; simp [(hM'k kv hkv).1]
+      have f3 : W'.filter (fun p => isExbpmKey p.1) = [] := by
+        rw [List.filter_eq_nil_iff]; intro kv hkv; simp [(hW'k kv hkv).1]
+      have f4 : (bpmEntries c.bpms).filter (fun p => isExbpmKey p.1) = bpmEntries c.bpms := by
+        rw [List.filter_eq_self]; intro kv hkv; exact (hE kv hkv).2.1
+      have b1 : isExbpmKey "BPM".toList = false := by decide
+      have b2 : isExbpmKey "LNOBJ".toList = false := by decide
+      simp only [List.filter_append, List.filter_cons, f1, f2, f3, f4, b1, b2, List.nil_append, List.append_nil,
+        Bool.false_eq_true, if_false]
+    rw [this]
+    exact (dict_of_distinct _ hEnd).1
+  have hex := (exbpm_table_readback c.bpms hH.nbpm hH.bpmpos).1
+  have hparse : parseFloat bpmText = some b0.bpm :=
+    parseFloat_showExact b0.bpm (hH.bpmpos b0 (by rw [hb]; simp)) bpmText hs
+  have hrest : dictGet? (H.filter (fun kv => !(isExbpmKey kv.1) && !(isWavKey kv.1))) "BPM".toList = some bpmText := by
+    rw [dictGet_filter (fun k => !(isExbpmKey k) && !(isWavKey k)) H "BPM".toList (by decide), hBPM]
+  refine ⟨hLN, b0, ?_⟩
+  have hfe : foldlE exbpmStep [] H = .ok ((zipIdxFrom 1 c.bpms).map (fun p => (base36 p.1, roundDec 3 p.2.bpm))) := by
+    rw [foldlE_exbpmStep_filter, hfilt]; exact hex
+  unfold readHeader
+  simp only [hfe, bind, Except.bind, hrest, hparse]
+  exact ⟨_, by rw [hb]; rfl, rfl, rfl, rfl⟩
+
 end Reamber.BMS
